@@ -17,7 +17,7 @@ EXPLANATION = (
     "C11.6 separator accounting in path_join / path_join_fmt: on every path that appends the extension, (base ends with '/') + (extension starts with '/') + ('/' pushed) - (leading '/' skipped) == 1 with both facts tested on that path, and the extension is appended once. "
     "C11.7 ends_with answers true only after the needle's first byte was compared (dominating `needle index == 0`, exhausted needle, or a counting loop whose last round compares index 0). "
     "C11.4 also: path_file_name scans the whole string and returns a name only under index + 2 < len (linear form). "
-    "C11.4 also: parent_path decides at the last separator only (no test on other positions of the path can refuse it). NOT decided: agreement of the results with the byte-string definitions for all operand pairs (first occurrence, suffix test, prefix length) - value-level.")
+    "C11.4 also: parent_path decides at the last separator only (no test on other positions of the path can refuse it). C11.5 also: a pairwise (zip) comparison of haystack and needle bytes stands under a comparison of the two lengths (zip ends at the shorter side). NOT decided: agreement of the results with the byte-string definitions for all operand pairs (first occurrence, suffix test, prefix length) - value-level.")
 ASSUMPTIONS = ["slices and vectors are at most isize::MAX long", "reviewed table of loop-invariant arithmetic (see rule module)"]
 
 M = "rusl::string::unix_str::"
